@@ -241,10 +241,52 @@ class ExcFlow:
                         out.add("Exception")
             out |= self._callee_escapes(r)
             return out or {"Exception"}
-        # raising a local variable (e.g. a stored exception): unknown Exception subclass
+        # raising a local variable: a class looked up in a module-level table of exception classes
+        # (`if exc := TABLE.get(code): raise exc(stage)`), else an unknown Exception subclass (a stored exception)
         if isinstance(e, ast.Name) and e.id[:1].islower():
-            return {"Exception"}
+            tc = self._table_classes(f, e.id)
+            return tc if tc else {"Exception"}
         return {r}
+
+    def _table_classes(self, f, name: str) -> set[str]:
+        from .loader import walk_own as _walk_own
+
+        vals = []
+        for x in _walk_own(f.node):
+            if isinstance(x, ast.Assign) and len(x.targets) == 1 and isinstance(x.targets[0], ast.Name) and x.targets[0].id == name:
+                vals.append(x.value)
+            elif isinstance(x, ast.NamedExpr) and x.target.id == name:
+                vals.append(x.value)
+            elif isinstance(x, ast.Name) and isinstance(x.ctx, ast.Store) and x.id == name:
+                pass
+        out: set[str] = set()
+        if not vals:
+            return out
+        for v in vals:
+            tab = None
+            if isinstance(v, ast.Call) and isinstance(v.func, ast.Attribute) and v.func.attr == "get" and len(v.args) == 1:
+                tab = v.func.value
+            elif isinstance(v, ast.Subscript):
+                tab = v.value
+            d = dotted(tab) if tab is not None else None
+            if d is None:
+                return set()
+            r = self.prog.resolve_dotted(f.module, d)
+            parts = r.rsplit(".", 1)
+            if not (len(parts) == 2 and parts[0] in self.prog.modules and parts[1] in self.prog.modules[parts[0]].assigns):
+                return set()
+            lits = self.prog.modules[parts[0]].assigns[parts[1]]
+            if len(lits) != 1 or not isinstance(lits[0], ast.Dict):
+                return set()
+            m = self.prog.modules[parts[0]]
+            for dv in lits[0].values:
+                dd = dotted(dv)
+                rr = self.prog.resolve_dotted(m, dd) if dd else None
+                rr = EXC_ALIASES.get(rr, rr) if rr else None
+                if not rr or not (rr in self.prog.classes or self.prog.known_class(rr)):
+                    return set()
+                out.add(rr)
+        return out
 
     def _reraised(self, cfg: CFG, handler_stack) -> set[str]:
         if not handler_stack:
